@@ -91,6 +91,23 @@ def seeded_items(prop: Optional[str]) -> List[Dict[str, object]]:
     return out
 
 
+def variant_items(prop: Optional[str]) -> List[Dict[str, object]]:
+    """/verif/variants: a behaviour-preserving refactoring of /verif/benign with ONE breaking mutation on top (mine): the
+    generalised rule forms (tables, expression forms, moved functions) must still fire."""
+    import glob
+    import json
+    out: List[Dict[str, object]] = []
+    root = os.path.join(os.path.dirname(os.path.dirname(os.path.abspath(__file__))), "variants")
+    for mf in sorted(glob.glob(os.path.join(root, "*", "meta.json"))):
+        with open(mf) as fh:
+            m = json.load(fh)
+        if prop is not None and m.get("property") != prop:
+            continue
+        out.append({"id": "variant-" + m["id"], "prop": m["property"], "rule": m["property"] + ".", "what": (m.get("summary") or "")[:80],
+                    "patch": os.path.join(os.path.dirname(mf), "patch.diff"), "edits": []})
+    return out
+
+
 def benign_patch_items(prop: Optional[str]) -> List[Dict[str, object]]:
     """The behaviour-preserving refactorings of /verif/benign (independent authors; suite re-run by me: 143 passed each)
     as additional must-stay-silent items - every patch against every property."""
@@ -116,7 +133,7 @@ def benign_patch_items(prop: Optional[str]) -> List[Dict[str, object]]:
 
 def selftest(repo: str = "/repo", prop: Optional[str] = None, jobs: int = 16) -> Tuple[bool, List[Dict[str, object]]]:
     items: List[Dict[str, object]] = []
-    for m in seeded_items(prop):
+    for m in seeded_items(prop) + variant_items(prop):
         items.append(dict(m, kind="mutant"))
     for m in MUTANTS:
         if prop is None or m["prop"] == prop:
